@@ -61,7 +61,7 @@ class C11(Prop):
         return obs
 
     def _harness_rest(self, ctx, obs):
-        for name in ("C11", "C11Inject", "C11B64", "C11Tail", "C11SendThenClose"):
+        for name in ("C11", "C11Inject", "C11B64", "C11Tail", "C11SendThenClose", "C11Backpressure"):
             rc, out, p, dt = C.go_test_overlay(ctx.work, "./agent/websockets/", "TestVerif%s$" % name, OVERLAY, name + ".jsonl", ctx.seed, ctx.tier, timeout=1800)
             rows = C.read_jsonl(p)
             if rc != 0 or not rows:
@@ -112,6 +112,13 @@ class C11(Prop):
                     res.append(("server-to-client:lost-after-silence", "a server message sent after %s ms of silence was not delivered (poll answered %s)" % (r.get("silence_ms"), r.get("after_poll_status")), rp))
                 if not r.get("after_c2s_ok"):
                     res.append(("client-to-server:lost-after-silence", "a client message posted after %s ms of silence was not delivered (data post answered %s)" % (r.get("silence_ms"), r.get("after_data_status")), rp))
+        for r in obs.get("C11Backpressure") or []:
+            rp = {"driver": "TestVerifC11Backpressure: echoing backend, 48 x 1 MiB posted in batches of 8, first poll after 2 s", "observed": r}
+            if r.get("error"):
+                res.append(("backpressure:open-failed", r["error"], rp))
+            elif r.get("echoed_back") != r.get("messages") or not r.get("in_order") or not r.get("intact") or any(s != 200 for s in (r.get("data_post_statuses") or [-1])):
+                res.append(("backpressure:messages-stuck-or-changed", "with both queues full and a data post waiting for room, %s of %s messages came back (in order: %s, unchanged: %s); polls answered %s, data posts %s" % (
+                    r.get("echoed_back"), r.get("messages"), r.get("in_order"), r.get("intact"), r.get("poll_statuses"), r.get("data_post_statuses")), rp))
         for r in obs["C11Inject"]:
             rp = {"driver": "TestVerifC11Inject", "sent": r["sent"], "received": r.get("received"), "request_headers": r["request_headers"]}
             if not r["delivered"] or r["status"] != 200:
